@@ -79,6 +79,7 @@ type deferRec struct {
 }
 
 type fnCtx struct {
+	atHit map[string]bool
 	e          *Engine
 	fn         *ssa.Function
 	key        string
@@ -504,6 +505,7 @@ func (e *Engine) genFunction(fn *ssa.Function) (fc *fnCtx, err error) {
 	}
 	fr.run(st, args)
 	// returns
+	assertHits := make([]int, len(fc.c.Asserts))
 	for _, rr := range fr.retStates {
 		fc.sc.cur = rr.instr.Block().Index
 		fr.evalBlock = rr.instr.Block()
@@ -538,7 +540,24 @@ func (e *Engine) genFunction(fn *ssa.Function) (fc *fnCtx, err error) {
 			if en.Case != "" && "@case:"+en.Case != where {
 				continue
 			}
-			t := env.evalBool(en.Expr, en.Src)
+			// a body-only assertion may mention locals that do not exist on every return path: it is checked
+			// at the returns where they do (at least one, or the contract is rejected below)
+			t, ok := func() (t string, ok bool) {
+				defer func() {
+					if r := recover(); r != nil {
+						if ee, is := r.(engineError); is && strings.Contains(string(ee), "unknown identifier") {
+							ok = false
+							return
+						}
+						panic(r)
+					}
+				}()
+				return env.evalBool(en.Expr, en.Src), true
+			}()
+			if !ok {
+				continue
+			}
+			assertHits[i]++
 			fr.oblige(rr.st, "post", label+where, rr.instr.Pos(), t, en.Src)
 		}
 		// error propagation (C17): an error returned by a callee on the way here is not swallowed
@@ -554,6 +573,25 @@ func (e *Engine) genFunction(fn *ssa.Function) (fc *fnCtx, err error) {
 					fr.oblige(rr.st, "propagate", ce.text+where, rr.instr.Pos(), cond, "an error returned by "+ce.text+" must be returned")
 				}
 			}
+		}
+	}
+	// a call-site assertion whose call is no longer in the body cannot be checked: reported as a failed obligation
+	var atKeys []string
+	for k := range fc.c.At {
+		atKeys = append(atKeys, k)
+	}
+	sort.Strings(atKeys)
+	for _, k := range atKeys {
+		if !fc.atHit[k] {
+			fc.sc.cur = -1
+			o := &Obligation{Name: fc.oblName("at", k+".anchor"), Func: fc.key, Kind: "at", Anchor: k + ".anchor", Prefix: 0, Reach: "true", Cond: "false",
+				Desc: "the call " + k + " named by an at-clause of the contract is not in the function body", script: fc.sc, Inputs: fc.inputs, Blk: -1}
+			fc.obls = append(fc.obls, o)
+		}
+	}
+	for i, en := range fc.c.Asserts {
+		if assertHits[i] == 0 && len(fr.retStates) > 0 {
+			fail("contract %q of %s: checked at no return (case text or local names do not match the code)", en.Src, fc.key)
 		}
 	}
 	return fc, nil
@@ -1008,6 +1046,22 @@ func (fr *frame) addrLocal(st *state, name string) (TV, bool) {
 			}
 			if !dup {
 				cands = append(cands, al)
+			}
+		}
+	}
+	// variables captured by closures: "new T (name)" cells (their := definition has a value DebugRef only)
+	for _, b := range fr.fn.Blocks {
+		for _, in := range b.Instrs {
+			if al, ok := in.(*ssa.Alloc); ok && al.Comment == name {
+				dup := false
+				for _, c := range cands {
+					if c == al {
+						dup = true
+					}
+				}
+				if !dup {
+					cands = append(cands, al)
+				}
 			}
 		}
 	}
